@@ -12,7 +12,7 @@ import vlib
 from vlib import Check, ToolError, run_tlc, axv, last_json, write_cfg, tla_set
 
 PROP = "C19"
-AS_BUILT = ["NaNNotReflexive", "SqlNumericLiteralViaF64"]   # NumericCompareViaF64 and NegZeroHashDiffers were repaired (c56fbc9, b3e2c6a); the constants stay in Values.tla
+AS_BUILT = ["SqlNumericLiteralViaF64"]   # NumericCompareViaF64, NegZeroHashDiffers and NaNNotReflexive were repaired (c56fbc9, b3e2c6a, 27cc169); the constants stay in Values.tla
 
 
 def dev_sets():
